@@ -782,7 +782,8 @@ func (n *ExtendsNode) Render(w io.Writer, ctx *RenderContext) error {
 	// Create a new context for the parent template, but with our child blocks
 	// This ensures the parent template knows it's being extended and preserves our blocks
 	parentCtx := NewRenderContext(ctx.env, ctx.context, ctx.engine)
-	parentCtx.extending = true // Flag that the parent is being extended
+	parentCtx.extending = true          // Flag that the parent is being extended
+	parentCtx.sandboxed = ctx.sandboxed // A sandbox covers the layouts a sandboxed template extends
 
 	// Pass along the parent template as lastLoadedTemplate for relative path resolution
 	parentCtx.lastLoadedTemplate = parentTemplate
@@ -1167,6 +1168,7 @@ func (n *MacroNode) CallMacro(w io.Writer, ctx *RenderContext, args ...interface
 	macroCtx := NewRenderContext(ctx.env, nil, ctx.engine)
 	macroCtx.parent = ctx
 	macroCtx.lastLoadedTemplate = ctx.lastLoadedTemplate
+	macroCtx.sandboxed = ctx.sandboxed // Macros called from a sandboxed template run sandboxed
 
 	// Ensure context is released even in error paths
 	defer macroCtx.Release()
@@ -1266,6 +1268,7 @@ func (n *ImportNode) Render(w io.Writer, ctx *RenderContext) error {
 
 	// Create a new context for the imported template
 	importCtx := NewRenderContext(ctx.env, nil, ctx.engine)
+	importCtx.sandboxed = ctx.sandboxed // A sandbox covers the templates a sandboxed template imports
 	// Set the template as the lastLoadedTemplate for relative path resolution
 	importCtx.lastLoadedTemplate = template
 
@@ -1349,6 +1352,7 @@ func (n *FromImportNode) Render(w io.Writer, ctx *RenderContext) error {
 
 	// Create a new context for the imported template
 	importCtx := NewRenderContext(ctx.env, nil, ctx.engine)
+	importCtx.sandboxed = ctx.sandboxed // A sandbox covers the templates a sandboxed template imports
 	// Set the template as the lastLoadedTemplate for relative path resolution
 	importCtx.lastLoadedTemplate = template
 
